@@ -48,6 +48,9 @@ def gen_block(rng, feats=FEATS):
         b += rng.choice("cdefgab") + " "
     elif k < 0.65:
         b += rng.choice(["`", '"']) + " "
+    elif k < 0.80:
+        # a tied group left pending at the end of the block (flushed when the track's next note comes or at the end)
+        b += rng.choice(["c& ", "d&e& ", "Slur(2) g& ", "a8&"]) + " "
     return b
 
 
